@@ -352,11 +352,12 @@ func c09Jobs(tier string) []Job {
 	if tier == "thorough" {
 		maxRes, maxFreq = 5, 3
 	}
+	quick := tier != "thorough"
 	for _, maxCost := range []int64{3, 5} {
 		for n := 1; n <= maxRes; n++ {
 			order := "perm"
-			if n >= 5 {
-				order = "rot"
+			if n >= 5 || (quick && n >= 4) {
+				order = "rot" // quick: all permutations up to 3 residents, rotations for 4
 			}
 			// cost assignments in {1,2}^n that fit
 			for cm := 0; cm < 1<<n; cm++ {
